@@ -1,8 +1,12 @@
 import Driver.Proto
 import Driver.C09
+import Driver.C11
+import Driver.C11Mon
 
 def suites : List (String × Driver.Suite) :=
-  Driver.C09.suites
+  Driver.C09.suites ++
+  Driver.C11.suites ++
+  Driver.C11Mon.suites
 
 def main (args : List String) : IO UInt32 := do
   match args with
